@@ -51,11 +51,11 @@ Proof. reflexivity. Qed.
 (* ------------------------------------------------------------------ *)
 (* Inc along the chain, for a request without status and with room      *)
 
-Lemma inc_drain : forall c, wf c -> forall q, forall s rest p,
+Lemma inc_drain_b : forall c, wf c -> forall q, forall s rest p,
   stk s (Req p) = FIncCheck q :: rest ->
   (forall q', anc c q q' ->
      status s q' p = None /\ Z.of_nat (length (members s q')) < cmax c q') ->
-  exists n, let s' := alone c s (Req p) n in
+  exists n, Z.of_nat n <= 4 * Z.max 0 q + 4 /\ let s' := alone c s (Req p) n in
     stk s' (Req p) = rest /\
     (forall q', anc c q q' -> status s' q' p <> None) /\
     verdict s' = verdict s.
@@ -91,13 +91,13 @@ Proof.
   - (* the parent's Inc, then the status of q *)
     cbn [app] in E3.
     assert (Hp : 0 <= p' < q) by (apply WF; exact P).
-    destruct (IH p' Hp s3 (FSet q e :: rest) p E3) as [n [F1 [F2 F3]]].
+    destruct (IH p' Hp s3 (FSet q e :: rest) p E3) as [n [Bn [F1 [F2 F3]]]].
     { intros q' A. destruct (H q' (anc_up c q p' q' P A)) as [X Y].
       assert (q' <> q) by (eapply anc_parent_neq; eauto).
       rewrite St3, M3 by assumption. split; assumption. }
     cbn zeta in F1, F2, F3. set (s4 := alone c s3 (Req p) n) in *.
     set (s5 := exec c s4 (Req p) (FSet q e) rest).
-    exists (3 + n + 1)%nat. cbn zeta.
+    exists (3 + n + 1)%nat. split; [lia|]. cbn zeta.
     rewrite !alone_add, A3. fold s4. rewrite (alone_top c s4 _ _ _ _ F1). rewrite alone_0. fold s5.
     repeat split.
     + unfold s5. cbn [exec self]. proj. apply updt_same.
@@ -110,7 +110,7 @@ Proof.
     + unfold s5. cbn [exec self]. proj. congruence.
   - (* root: record the status *)
     cbn [app] in E3. set (s5 := exec c s3 (Req p) (FSet q e) rest).
-    exists 4%nat. cbn zeta. change 4%nat with (3 + 1)%nat. rewrite alone_add, A3.
+    exists 4%nat. split; [lia|]. cbn zeta. change 4%nat with (3 + 1)%nat. rewrite alone_add, A3.
     rewrite (alone_top c s3 _ _ _ _ E3). rewrite alone_0. fold s5. repeat split.
     + unfold s5. cbn [exec self]. proj. apply updt_same.
     + intros q' A. destruct (anc_inv c q q' A) as [->|[p2 [P2 _]]]; [|congruence].
@@ -118,11 +118,24 @@ Proof.
     + unfold s5. cbn [exec self]. proj. exact V3.
 Qed.
 
+Lemma inc_drain : forall c, wf c -> forall q, forall s rest p,
+  stk s (Req p) = FIncCheck q :: rest ->
+  (forall q', anc c q q' ->
+     status s q' p = None /\ Z.of_nat (length (members s q')) < cmax c q') ->
+  exists n, let s' := alone c s (Req p) n in
+    stk s' (Req p) = rest /\
+    (forall q', anc c q q' -> status s' q' p <> None) /\
+    verdict s' = verdict s.
+Proof.
+  intros c WF q s rest p E H. destruct (inc_drain_b c WF q s rest p E H) as [n [_ F]].
+  exists n. exact F.
+Qed.
+
 (* the status checks of Allowed along the chain, all statuses held *)
-Lemma acheck_drain : forall c, wf c -> forall q, forall s rest p,
+Lemma acheck_drain_b : forall c, wf c -> forall q, forall s rest p,
   stk s (Req p) = FACheck q :: rest ->
   (forall q', anc c q q' -> status s q' p <> None) ->
-  exists n, let s' := alone c s (Req p) n in
+  exists n, Z.of_nat n <= 2 * Z.max 0 q + 1 /\ let s' := alone c s (Req p) n in
     stk s' (Req p) = rest /\ verdict s' p = Some true.
 Proof.
   intros c WF q0. induction q0 as [q IH] using (well_founded_induction (Z.lt_wf 0)).
@@ -141,21 +154,32 @@ Proof.
     { unfold s2. cbn [exec self]. rewrite Sp'. proj. apply updt_same. }
     assert (St2 : status s2 = status s) by (unfold s2; cbn [exec self]; rewrite Sp'; exact St1).
     assert (Hp : 0 <= p' < q) by (apply WF; exact P).
-    destruct (IH p' Hp s2 rest p E2) as [n [F1 F2]].
+    destruct (IH p' Hp s2 rest p E2) as [n [Bn [F1 F2]]].
     { intros q' A. rewrite St2. apply H. eapply anc_up; eauto. }
-    exists (2 + n)%nat. cbn zeta. rewrite alone_add.
+    exists (2 + n)%nat. split; [lia|]. cbn zeta. rewrite alone_add.
     assert (A2 : alone c s (Req p) 2 = s2).
     { rewrite (alone_top c s _ _ _ _ E). fold s1. rewrite (alone_top c s1 _ _ _ _ E1). reflexivity. }
     rewrite A2. split; assumption.
-  - exists 1%nat. cbn zeta. rewrite (alone_top c s _ _ _ _ E), alone_0.
+  - exists 1%nat. split; [lia|]. cbn zeta. rewrite (alone_top c s _ _ _ _ E), alone_0.
     cbn [exec self]. rewrite Sq, P. proj. rewrite updt_same, upd_same. auto.
 Qed.
 
-Lemma probe_admitted : forall c, wf c -> forall s p q,
+Lemma acheck_drain : forall c, wf c -> forall q, forall s rest p,
+  stk s (Req p) = FACheck q :: rest ->
+  (forall q', anc c q q' -> status s q' p <> None) ->
+  exists n, let s' := alone c s (Req p) n in
+    stk s' (Req p) = rest /\ verdict s' p = Some true.
+Proof.
+  intros c WF q s rest p E H. destruct (acheck_drain_b c WF q s rest p E H) as [n [_ F]].
+  exists n. exact F.
+Qed.
+
+Lemma probe_admitted_b : forall c, wf c -> forall s p q,
   stk s (Req p) = [] ->
   (forall q', anc c q q' ->
      status s q' p = None /\ Z.of_nat (length (members s q')) < cmax c q') ->
-  exists n, let s' := run c s (ECall (Req p) (OAllowed q) :: repeat (EStep (Req p)) n) in
+  exists n, Z.of_nat n <= 6 * Z.max 0 q + 5 /\
+    let s' := run c s (ECall (Req p) (OAllowed q) :: repeat (EStep (Req p)) n) in
     stk s' (Req p) = [] /\ verdict s' p = Some true.
 Proof.
   intros c WF s p q E H.
@@ -165,11 +189,23 @@ Proof.
   assert (X0 : members s0 = members s /\ status s0 = status s).
   { unfold s0. cbn [step]. rewrite E. cbn [op_fits]. split; reflexivity. }
   destruct X0 as [M0 St0].
-  destruct (inc_drain c WF q s0 [FACheck q] p E0) as [n1 [F1 [F2 _]]].
+  destruct (inc_drain_b c WF q s0 [FACheck q] p E0) as [n1 [B1 [F1 [F2 _]]]].
   { intros q' A. rewrite M0, St0. apply H. exact A. }
   cbn zeta in F1, F2.
-  destruct (acheck_drain c WF q (alone c s0 (Req p) n1) [] p F1 F2) as [n2 [G1 G2]].
-  exists (n1 + n2)%nat. cbn zeta. rewrite alone_call. fold s0. rewrite alone_add. split; assumption.
+  destruct (acheck_drain_b c WF q (alone c s0 (Req p) n1) [] p F1 F2) as [n2 [B2 [G1 G2]]].
+  exists (n1 + n2)%nat. split; [lia|].
+  cbn zeta. rewrite alone_call. fold s0. rewrite alone_add. split; assumption.
+Qed.
+
+Lemma probe_admitted : forall c, wf c -> forall s p q,
+  stk s (Req p) = [] ->
+  (forall q', anc c q q' ->
+     status s q' p = None /\ Z.of_nat (length (members s q')) < cmax c q') ->
+  exists n, let s' := run c s (ECall (Req p) (OAllowed q) :: repeat (EStep (Req p)) n) in
+    stk s' (Req p) = [] /\ verdict s' p = Some true.
+Proof.
+  intros c WF s p q E H. destruct (probe_admitted_b c WF s p q E H) as [n [_ F]].
+  exists n. exact F.
 Qed.
 
 (* ------------------------------------------------------------------ *)
@@ -345,11 +381,11 @@ Proof.
   - destruct (mem_eqb_spec x m) as [->|NE]; [tauto|]. f_equal. apply IH. tauto.
 Qed.
 
-Lemma gc_drain : forall c q l s A,
+Lemma gc_drain_b : forall c q l s A,
   stk s (Gc q) = map (fun m => GItem q (fst m) (snd m)) l ->
   members s q = A ++ l ->
   Forall (fun m => live (now s) m = true) A ->
-  exists n, let s' := alone c s (Gc q) n in
+  exists n, (n <= 2 * length l)%nat /\ let s' := alone c s (Gc q) n in
     stk s' (Gc q) = [] /\
     members s' q = A ++ filter (live (now s)) l /\
     now s' = now s /\
@@ -359,7 +395,7 @@ Lemma gc_drain : forall c q l s A,
     (forall q' r, q' <> q -> status s' q' r = status s q' r).
 Proof.
   intros c q. induction l as [|[e r] l IH]; intros s A E M L.
-  - exists 0%nat. cbn zeta. rewrite alone_0. cbn. repeat split; auto. intros ? ? [].
+  - exists 0%nat. split; [cbn; lia|]. cbn zeta. rewrite alone_0. cbn. repeat split; auto. intros ? ? [].
   - cbn [map fst snd] in E. destruct (Z.leb_spec e (now s)) as [X|X].
     + (* expired: SRem, then the status deletion *)
       set (s1 := exec c s (Gc q) (GItem q e r) (map (fun m => GItem q (fst m) (snd m)) l)).
@@ -382,9 +418,9 @@ Proof.
       assert (Y2 : members s2 = members s1 /\ now s2 = now s) by (unfold s2; cbn [exec]; proj; auto).
       destruct Y2 as [M2 N2].
       assert (L2 : Forall (fun m => live (now s2) m = true) A) by (rewrite N2; exact L).
-      destruct (IH s2 A E2) as [n [F1 [F2 [F3 [F4 [F5 [F6 F7]]]]]]]; [rewrite M2; exact M1|exact L2|].
+      destruct (IH s2 A E2) as [n [Bn [F1 [F2 [F3 [F4 [F5 [F6 F7]]]]]]]]; [rewrite M2; exact M1|exact L2|].
       cbn zeta in *. set (s3 := alone c s2 (Gc q) n) in *.
-      exists (2 + n)%nat. rewrite alone_add.
+      exists (2 + n)%nat. split; [cbn [length]; lia|]. rewrite alone_add.
       assert (A2 : alone c s (Gc q) 2 = s2).
       { rewrite (alone_top c s _ _ _ _ E). fold s1. rewrite (alone_top c s1 _ _ _ _ E1). reflexivity. }
       rewrite A2. fold s3.
@@ -411,12 +447,12 @@ Proof.
       assert (Y1 : members s1 = members s /\ now s1 = now s /\ status s1 = status s)
         by (unfold s1; cbn [exec]; rewrite Xb; auto).
       destruct Y1 as [M1 [N1 St1]].
-      destruct (IH s1 (A ++ [(e, r)]) E1) as [n [F1 [F2 [F3 [F4 [F5 [F6 F7]]]]]]].
+      destruct (IH s1 (A ++ [(e, r)]) E1) as [n [Bn [F1 [F2 [F3 [F4 [F5 [F6 F7]]]]]]]].
       { rewrite M1, M, <- app_assoc. reflexivity. }
       { rewrite N1. apply Forall_app. split; [exact L|]. constructor; [|constructor].
         unfold live. cbn. apply Z.ltb_lt. exact X. }
       cbn zeta in *. set (s3 := alone c s1 (Gc q) n) in *.
-      exists (1 + n)%nat. rewrite alone_add.
+      exists (1 + n)%nat. split; [cbn [length]; lia|]. rewrite alone_add.
       assert (A1 : alone c s (Gc q) 1 = s1) by (rewrite (alone_top c s _ _ _ _ E); reflexivity).
       rewrite A1. fold s3.
       split; [exact F1|]. split; [|split; [congruence|split; [|split; [|split]]]].
@@ -429,9 +465,26 @@ Proof.
       * intros q' r' N. rewrite F7, St1 by exact N. reflexivity.
 Qed.
 
-Lemma gc_pass : forall c s q,
+Lemma gc_drain : forall c q l s A,
+  stk s (Gc q) = map (fun m => GItem q (fst m) (snd m)) l ->
+  members s q = A ++ l ->
+  Forall (fun m => live (now s) m = true) A ->
+  exists n, let s' := alone c s (Gc q) n in
+    stk s' (Gc q) = [] /\
+    members s' q = A ++ filter (live (now s)) l /\
+    now s' = now s /\
+    (forall q', q' <> q -> members s' q' = members s q') /\
+    (forall q' r, status s' q' r = status s q' r \/ status s' q' r = None) /\
+    (forall e r, In (e, r) l -> e <= now s -> status s' q r = None) /\
+    (forall q' r, q' <> q -> status s' q' r = status s q' r).
+Proof.
+  intros c q l s A E M L. destruct (gc_drain_b c q l s A E M L) as [n [_ F]]. exists n. exact F.
+Qed.
+
+Lemma gc_pass_b : forall c s q,
   stk s (Gc q) = [] ->
-  exists n, let s' := run c s (ECall (Gc q) (OGc q) :: repeat (EStep (Gc q)) n) in
+  exists n, (n <= 2 * length (members s q) + 1)%nat /\
+    let s' := run c s (ECall (Gc q) (OGc q) :: repeat (EStep (Gc q)) n) in
     stk s' (Gc q) = [] /\
     members s' q = filter (live (now s)) (members s q) /\
     now s' = now s /\
@@ -453,9 +506,23 @@ Proof.
   assert (X1 : members s1 = members s /\ status s1 = status s /\ now s1 = now s)
     by (unfold s1; cbn [exec]; proj; auto).
   destruct X1 as [M1 [St1 N1]].
-  destruct (gc_drain c q (members s q) s1 [] E1) as [n [F1 [F2 [F3 [F4 [F5 [F6 F7]]]]]]].
+  destruct (gc_drain_b c q (members s q) s1 [] E1) as [n [Bn [F1 [F2 [F3 [F4 [F5 [F6 F7]]]]]]]].
   { rewrite M1. reflexivity. } { constructor. }
-  cbn zeta in *. exists (1 + n)%nat. rewrite alone_call. fold s0. rewrite alone_add.
+  cbn zeta in *. exists (1 + n)%nat. split; [lia|]. rewrite alone_call. fold s0. rewrite alone_add.
   assert (A1 : alone c s0 (Gc q) 1 = s1) by (rewrite (alone_top c s0 _ _ _ _ E0); reflexivity).
   rewrite A1. rewrite N1, M1, St1 in *. cbn [app] in F2. repeat split; auto.
+Qed.
+
+Lemma gc_pass : forall c s q,
+  stk s (Gc q) = [] ->
+  exists n, let s' := run c s (ECall (Gc q) (OGc q) :: repeat (EStep (Gc q)) n) in
+    stk s' (Gc q) = [] /\
+    members s' q = filter (live (now s)) (members s q) /\
+    now s' = now s /\
+    (forall q', q' <> q -> members s' q' = members s q') /\
+    (forall e r, In (e, r) (members s q) -> e <= now s -> status s' q r = None) /\
+    (forall q' r, status s' q' r = status s q' r \/ status s' q' r = None) /\
+    (forall q' r, q' <> q -> status s' q' r = status s q' r).
+Proof.
+  intros c s q E. destruct (gc_pass_b c s q E) as [n [_ F]]. exists n. exact F.
 Qed.
